@@ -250,3 +250,43 @@ class SetItemDict(dict):
 
     def __reduce__(self):
         return (SetItemDict, (), None, None, iter(list(self.items())))
+
+
+class CopyregArgs:
+    """reduced through copyreg.dispatch_table (copyreg.pickle below), not through a method: the registered reducer
+    rebuilds from the constructor argument and deliberately leaves the attribute `scratch` out"""
+
+    def __init__(self, a):
+        self.a = a
+        self.scratch = None
+
+
+def _reduce_copyreg_args(obj):
+    return (CopyregArgs, (obj.a,))
+
+
+class CopyregState:
+    """registered reducer with state and list items; the class itself cannot be reduced by default (__reduce_ex__ raises)"""
+
+    def __init__(self, a=None):
+        self.a = a
+        self.items = []
+
+    def append(self, x):
+        self.items.append(x)
+
+    def extend(self, xs):
+        for x in xs:
+            self.append(x)
+
+    def __reduce_ex__(self, protocol):
+        raise TypeError('cannot reduce CopyregState objects by default')
+
+
+def _reduce_copyreg_state(obj):
+    return (CopyregState, (), {'a': obj.a}, iter(list(obj.items)))
+
+
+import copyreg
+copyreg.pickle(CopyregArgs, _reduce_copyreg_args)
+copyreg.pickle(CopyregState, _reduce_copyreg_state)
